@@ -82,7 +82,9 @@ impl PreProcessContext {
                     return path;
                 }
             };
-            path = home_dir.join(&path[2..]).to_string_lossy().to_string();
+            // skip the `~` and the path separators after it; `~` alone is the home directory
+            let rest = path[1..].trim_start_matches(['/', '\\']);
+            path = home_dir.join(rest).to_string_lossy().to_string();
         } else if path.starts_with("./") {
             path = self
                 .workspace
